@@ -1,6 +1,8 @@
 //! Non-generic engines (cursor, MemCase lifecycle): kept out of the `harness`
 //! library so that editing them does not rebuild the type-universe shards.
 pub mod cursor;
+#[cfg(epserde_verif)]
+pub mod memcase;
 
 pub fn panic_msg(p: Box<dyn std::any::Any + Send>) -> String {
     if let Some(s) = p.downcast_ref::<&str>() { s.to_string() }
